@@ -12,7 +12,9 @@ RULES = {
     "C08": "(a) well-formed formats: 1-12 tokens from {literals incl. bytes >= 0x80, 24 library specifiers, %E<n>S/%E<n>f with n up "
            "to 30, 44 strftime specifiers incl. %E/%O variants}; expected text = concatenation of per-token renderings from "
            "lookup() fields (library tokens by the documented rules, others by the oracle's own strftime call); year-dependent "
-           "strftime tokens only where the year fits tm_year; (b) malformed formats: dangling %, %E, %E*, %:, %::, %E + up to 400 "
+           "strftime tokens only where the year fits tm_year; glibc flag/width tokens; strftime's own %Z variants (%EZ %OZ %^Z %#Z "
+           "%Oz) with the process zone set to XST5XDT so that tm_isdst is observable; NUL in the literal text of formats "
+           "without delegated tokens; every eighth format used twice in a row for a sibling instant; (b) malformed formats: dangling %, %E, %E*, %:, %::, %E + up to 400 "
            "digits, runs of %, arbitrary bytes, embedded NUL - sanitizers only, plus literal pass-through for %-free formats. "
            "Non-trivial = distinct (format, instant, femtoseconds).",
     "C09": "(a) model-checked pairs: format of 1-9 tokens (library specifiers, literals, whitespace, %U %W %u %w) with a canonical "
